@@ -9,6 +9,7 @@ func init() { register("C16", checkC16) }
 
 func checkC16(c *Ctx) {
 	p := mustLoad(c, K1)
+	indexLints(c, p, "accumulator/merkletree", "field/koalabear/vortex")
 	c.Rule("C16.guard", "GUARD: merkletree.VerifyProof returns true only through the final bytes.Equal with the given root, after merkleRoot != nil, proofIndex < numLeaves and an equality test fixing the length of the proof set (a shortened set lets an interior node play the leaf); vortex MerkleProof.Verify returns nil only with 0 <= i < 2^len(proof) and the recomputed node equal to the root; MerkleTree.Open only with 0 <= i < 2^depth", 3)
 	c.Rule("C16.bounds", "BOUNDS (L12): every proofSet[height] / levels index on caller-supplied slices is dominated by a comparison with the slice length (a shortened proof is rejected, never a panic)", 2)
 	c.Rule("C16.order", "ORDER: in Tree.Push and Tree.PushSubTree the join of equal-height subtrees (which reads currentIndex to decide which sibling enters the proof set) happens before currentIndex is advanced, in both insertion routines alike; the tracked leaf is recorded before the join", 2)
